@@ -1,0 +1,12 @@
+//go:build verif
+
+// Contracts for package utils, read by the verification-condition generator in
+// /verif (govc).  Comment-only.
+
+package utils
+
+//@ props C16 C14
+//@ func Hex8ToIndex
+//@   nopanic
+//@   pure
+//@   loop 1 invariant 0 <= i && i <= 8
